@@ -934,6 +934,60 @@ Proof.
   unfold idx3 in G. simpl in G. rewrite !Nat.mul_1_r, !Nat.add_0_r in G. apply G; lia.
 Qed.
 
+(* ---- DiagonalOperator.apply in all four modes (real spectrum) ------------------------------------ *)
+Lemma power_operator_apply_length m d idx pindex nbin p x :
+  length (power_operator_apply R r0 rmul rdiv m d idx pindex nbin p x) = length x.
+Proof. unfold power_operator_apply. rewrite map_length, seq_length. reflexivity. Qed.
+
+Lemma power_operator_apply_times d idx pindex nbin p x :
+  power_operator_apply R r0 rmul rdiv MTimes d idx pindex nbin p x
+  = power_operator_times R r0 rmul d idx pindex nbin p x.
+Proof. reflexivity. Qed.
+
+Lemma power_operator_apply_get m dpre s dpost pindex nbin p x i1 j i3 :
+  length pindex = ssize s -> length x = prodsz (dpre ++ s :: dpost) ->
+  i1 < prodsz dpre -> j < ssize s -> i3 < prodsz dpost ->
+  get (power_operator_apply R r0 rmul rdiv m (dpre ++ s :: dpost) (length dpre) pindex nbin p x)
+      (idx3 (ssize s) (prodsz dpost) i1 j i3)
+  = if inverse_mode m
+    then rdiv (get x (idx3 (ssize s) (prodsz dpost) i1 j i3)) (get p (nth j pindex 0%nat))
+    else get x (idx3 (ssize s) (prodsz dpost) i1 j i3) * get p (nth j pindex 0%nat).
+Proof.
+  intros HL Hx H1 Hj H3. unfold power_operator_apply.
+  assert (Es : size_at R r0 (dpre ++ s :: dpost) (length dpre) = ssize s).
+  { unfold size_at. rewrite app_nth2 by lia. rewrite Nat.sub_diag. reflexivity. }
+  destruct (split_facts dpre s dpost) as (_ & _ & E3). rewrite Es, E3.
+  rewrite get_map_seq.
+  2:{ rewrite Hx, prodsz_app, prodsz_cons.
+      pose proof (idx3_lt (prodsz dpre) (ssize s) (prodsz dpost) i1 j i3 H1 Hj H3). lia. }
+  destruct (idx3_decode (ssize s) (prodsz dpost) i1 j i3 Hj H3) as (_ & E2 & _). rewrite E2.
+  assert (G : get (dist_times R r0 1 (ssize s) 1 nbin pindex p) j = get p (nth j pindex 0%nat)).
+  { pose proof (dist_times_get 1 (ssize s) 1 nbin pindex p 0 j 0) as G.
+    unfold idx3 in G. simpl in G. rewrite !Nat.mul_1_r, !Nat.add_0_r in G. apply G; lia. }
+  rewrite G. destruct m; reflexivity.
+Qed.
+
+(* INVERSE_TIMES undoes TIMES and vice versa (also for the adjoint pair and the mixed pairs: the diagonal is
+   real), on every mode whose bin has a non-zero spectrum value. *)
+Lemma power_operator_inverse m mi dpre s dpost pindex nbin p x i1 j i3 :
+  inverse_mode m = false -> inverse_mode mi = true ->
+  length pindex = ssize s -> length x = prodsz (dpre ++ s :: dpost) ->
+  i1 < prodsz dpre -> j < ssize s -> i3 < prodsz dpost ->
+  get p (nth j pindex 0%nat) <> r0 ->
+  (get (power_operator_apply R r0 rmul rdiv mi (dpre ++ s :: dpost) (length dpre) pindex nbin p
+         (power_operator_apply R r0 rmul rdiv m (dpre ++ s :: dpost) (length dpre) pindex nbin p x))
+      (idx3 (ssize s) (prodsz dpost) i1 j i3)
+  = get x (idx3 (ssize s) (prodsz dpost) i1 j i3))
+  /\ (get (power_operator_apply R r0 rmul rdiv m (dpre ++ s :: dpost) (length dpre) pindex nbin p
+         (power_operator_apply R r0 rmul rdiv mi (dpre ++ s :: dpost) (length dpre) pindex nbin p x))
+      (idx3 (ssize s) (prodsz dpost) i1 j i3)
+  = get x (idx3 (ssize s) (prodsz dpost) i1 j i3)).
+Proof.
+  intros Hm Hmi HL Hx H1 Hj H3 Hp.
+  rewrite !power_operator_apply_get by (try rewrite power_operator_apply_length; assumption).
+  rewrite Hm, Hmi. split; field; exact Hp.
+Qed.
+
 End Th.
 
 (* the model of a history is stateless: the answer to the last call does not depend on the calls before *)
